@@ -2,6 +2,7 @@ package eventloop
 
 import (
 	"math"
+	"reflect"
 	"sync"
 	"sync/atomic"
 	"time"
@@ -123,7 +124,8 @@ func (loop *EventLoop) schedule(call goja.FunctionCall, repeating bool) goja.Val
 		if len(call.Arguments) > 2 {
 			args = append(args, call.Arguments[2:]...)
 		}
-		f := func() { fn(nil, args...) }
+		// "this" is undefined in the callback (a nil this makes native functions dereference nil)
+		f := func() { fn(goja.Undefined(), args...) }
 		loop.jobCount++
 		var job *job
 		var ret goja.Value
@@ -160,7 +162,7 @@ func (loop *EventLoop) setImmediate(call goja.FunctionCall) goja.Value {
 		if len(call.Arguments) > 1 {
 			args = append(args, call.Arguments[1:]...)
 		}
-		f := func() { fn(nil, args...) }
+		f := func() { fn(goja.Undefined(), args...) }
 		if i := loop.addImmediate(f); i != nil {
 			verifPoint(loop, "sched.immediate", &i.job)
 			loop.jobCount++
@@ -521,23 +523,38 @@ func (loop *EventLoop) clearInterval(i *Interval) {
 // The JavaScript clear* functions accept only the handle their own set* function returned; anything else
 // (null, undefined, a handle of another kind, a foreign object, a primitive) is ignored, as in Node.
 
+// The type is tested before the value is exported: Export() of a foreign object copies it (an array with a huge
+// length exhausts memory).
+
+var (
+	reflectTypeTimer     = reflect.TypeOf((*Timer)(nil))
+	reflectTypeInterval  = reflect.TypeOf((*Interval)(nil))
+	reflectTypeImmediate = reflect.TypeOf((*Immediate)(nil))
+)
+
 func (loop *EventLoop) jsClearTimeout(call goja.FunctionCall) goja.Value {
-	if t, ok := call.Argument(0).Export().(*Timer); ok {
-		loop.clearTimeout(t)
+	if v := call.Argument(0); v.ExportType() == reflectTypeTimer {
+		if t, ok := v.Export().(*Timer); ok {
+			loop.clearTimeout(t)
+		}
 	}
 	return nil
 }
 
 func (loop *EventLoop) jsClearInterval(call goja.FunctionCall) goja.Value {
-	if i, ok := call.Argument(0).Export().(*Interval); ok {
-		loop.clearInterval(i)
+	if v := call.Argument(0); v.ExportType() == reflectTypeInterval {
+		if i, ok := v.Export().(*Interval); ok {
+			loop.clearInterval(i)
+		}
 	}
 	return nil
 }
 
 func (loop *EventLoop) jsClearImmediate(call goja.FunctionCall) goja.Value {
-	if i, ok := call.Argument(0).Export().(*Immediate); ok {
-		loop.clearImmediate(i)
+	if v := call.Argument(0); v.ExportType() == reflectTypeImmediate {
+		if i, ok := v.Export().(*Immediate); ok {
+			loop.clearImmediate(i)
+		}
 	}
 	return nil
 }
